@@ -1,33 +1,101 @@
 package c10
 
 import (
+	"fmt"
 	"testing"
+	"testing/synctest"
+	"time"
 
 	"pgregory.net/rapid"
 
 	"bngverif/internal/vstat"
 )
 
-// runSeq draws one history over <= 6 subscribers and runs it step by step against the model.
+// seqOp is one pre-drawn step: everything is generated outside the bubble; inside, the raw numbers are
+// interpreted against the model's state (kind = Kind mod #admissible kinds, subscriber = Sub mod #candidates).
+type seqOp struct {
+	Kind, Sub int
+	Form16    bool
+	DT        int // seconds of virtual time before the operation
+}
+
+var seqBase = time.Date(2000, 1, 1, 0, 0, 0, 0, time.UTC) // a bubble's clock starts here
+
+// runSeq draws one history over <= 6 subscribers and runs it step by step against the model, inside a
+// testing/synctest bubble (the logger stamps rotated files with the clock; its flusher and its compressors
+// are goroutines the case must join).
 //
 // Steering: while the count-derived-start overlap (KF-C10-1) is listed, three quarters of the
 // cases avoid asking for a new block when the public address that will serve it has a released
 // block below a live one (so histories reach depth); one quarter ("exercise") is unconstrained.
 // While the missing block extent of the per-allocation record (KF-C10-3) is listed, per-allocation
 // logs are replayed with the configured block size known out of band except in a "literal" class.
+// Cases that are not "prone" (natCfg.Prone) advance the clock by >= 1 s before every operation, keep
+// away from the seconds in which the logger's own 5 s ticker flushes, and use a MaxFileSize that one flush
+// cannot cross twice: no two rotations share a clock second there.
 func runSeq(t *testing.T, rt *rapid.T, dir string, name string, bulk bool) {
 	cfg := genCfg(&bulk).Draw(rt, "cfg")
+	genLogOpts(rt, &cfg, func(flushEvery int) int { return flushEvery })
 	exercise := rapid.IntRange(0, 3).Draw(rt, "exerciseKF1") == 0
 	avoid := vstat.IsListed(sigOverlapCount) && !exercise
 	strict := true
 	if !bulk && vstat.IsListed(sigLogNoExtent) {
 		strict = rapid.IntRange(0, 4).Draw(rt, "literalLog") == 0
 	}
-	e := newEnv(rt, dir, cfg, nil)
+	n := rapid.IntRange(1, 40).Draw(rt, "nOps")
+	ops := make([]seqOp, n)
+	for i := range ops {
+		ops[i] = seqOp{
+			Kind:   rapid.IntRange(0, 59).Draw(rt, "op"),
+			Sub:    rapid.IntRange(0, 59).Draw(rt, "sub"),
+			Form16: rapid.Bool().Draw(rt, "form16"),
+			DT:     rapid.SampledFrom([]int{0, 0, 1, 1, 1, 2, 4, 5, 61}).Draw(rt, "dt"),
+		}
+	}
+	var m *model
+	var rot []string
+	synctest.Test(t, func(*testing.T) {
+		m, rot = execSeq(dir, cfg, strict, avoid, ops)
+	})
+	m.report(rt)
+	extra := rot
+	if avoid {
+		extra = append(extra, "steer:avoid-KF1")
+	}
+	m.record(name, extra...)
+}
+
+// execSeq runs inside the bubble.  Violations are kept in the model (m.report).
+func execSeq(dir string, cfg natCfg, strict, avoid bool, ops []seqOp) (*model, []string) {
+	var ht harnessT
+	e := newEnv(&ht, dir, cfg, nil)
+	if e == nil {
+		m := newModel(cfg, nil, strict)
+		m.fail(&ht, "C10/harness", "%s", ht.msg)
+		return m, nil
+	}
+	e.inBubble = true
 	defer e.close()
 	m := newModel(cfg, e.pubs, strict)
-	n := rapid.IntRange(1, 40).Draw(rt, "nOps")
-	for i := 0; i < n && !m.dead; i++ {
+	e.start()
+	for _, op := range ops {
+		if m.dead {
+			break
+		}
+		dt := op.DT
+		if !cfg.Prone {
+			if dt == 0 {
+				dt = 1
+			}
+			// the flush loop's ticker fires at multiples of 5 s after Start: stay out of those seconds
+			if at := int(time.Since(seqBase)/time.Second) + dt; cfg.Started && at%5 == 0 {
+				dt++
+			}
+		}
+		if dt > 0 {
+			time.Sleep(time.Duration(dt) * time.Second)
+			e.settle()
+		}
 		var liveSubs, freeSubs []int
 		for s := 0; s < nSubs; s++ {
 			if _, ok := m.live[s]; ok {
@@ -51,28 +119,41 @@ func runSeq(t *testing.T, rt *rapid.T, dir string, name string, bulk bool) {
 		if len(liveSubs) > 0 {
 			kinds = append(kinds, "reask", "dealloc")
 		}
-		form16 := rapid.Bool().Draw(rt, "form16")
-		switch rapid.SampledFrom(kinds).Draw(rt, "op") {
+		pick := func(l []int) int { return l[op.Sub%len(l)] }
+		switch kinds[op.Kind%len(kinds)] {
 		case "new":
-			m.step(rt, e, true, rapid.SampledFrom(freeSubs).Draw(rt, "sub"), form16)
+			m.step(&ht, e, true, pick(freeSubs), op.Form16)
 		case "reask":
-			m.step(rt, e, true, rapid.SampledFrom(liveSubs).Draw(rt, "sub"), form16)
+			m.step(&ht, e, true, pick(liveSubs), op.Form16)
 		case "dealloc":
 			if len(liveSubs) > 0 {
-				m.step(rt, e, false, rapid.SampledFrom(liveSubs).Draw(rt, "sub"), form16)
+				m.step(&ht, e, false, pick(liveSubs), op.Form16)
 			} else {
-				m.step(rt, e, false, rapid.IntRange(0, nSubs-1).Draw(rt, "sub"), form16)
+				m.step(&ht, e, false, op.Sub%nSubs, op.Form16)
 			}
 		default: // deallocate of anybody (a no-op when nothing is held: DHCP RELEASE without NAT state)
-			m.step(rt, e, false, rapid.IntRange(0, nSubs-1).Draw(rt, "sub"), form16)
+			m.step(&ht, e, false, op.Sub%nSubs, op.Form16)
 		}
 	}
-	m.finish(rt, e)
-	extra := []string{}
-	if avoid {
-		extra = append(extra, "steer:avoid-KF1")
+	if !cfg.Prone {
+		time.Sleep(time.Second)
+		if at := int(time.Since(seqBase) / time.Second); cfg.Started && at%5 == 0 {
+			time.Sleep(time.Second)
+		}
+		e.settle()
 	}
-	m.record(name, extra...)
+	m.finish(&ht, e)
+	return m, e.rotClasses()
+}
+
+// harnessT collects harness-level failures (constructors rejecting a generated configuration) inside a bubble.
+type harnessT struct{ msg string }
+
+func (h *harnessT) Helper() {}
+func (h *harnessT) Fatalf(f string, a ...any) {
+	if h.msg == "" {
+		h.msg = fmt.Sprintf(f, a...)
+	}
 }
 
 // TestPropSeqBulk: random histories, RFC 6908 bulk (port-block) log records.
